@@ -6,6 +6,7 @@ mod crash;
 mod fault;
 mod fsck;
 mod gen;
+mod isolate;
 mod known;
 mod long;
 mod model;
@@ -243,15 +244,42 @@ fn cmd_check(prop: &str, tier: &str) -> i32 {
     let replay_dir = format!("{}/out/replays", root);
     std::fs::create_dir_all(&replay_dir).unwrap();
     let mut new_violations: Vec<(String, String)> = Vec::new();
-    let mut known_hits: BTreeMap<String, u64> = BTreeMap::new();
     let mut minimised = Vec::new();
+    let mut known_hits: BTreeMap<String, u64> = BTreeMap::new();
+    // runs that killed their process: re-executed in child processes and minimised there (the
+    // child streams its steps / scheduling decisions to a side file before acting on them).
+    // Distinct signals are minimised once each; the others keep their seeded form.
+    let mut died_minimised: std::collections::BTreeSet<String> = Default::default();
     for (i, seed, st) in &died {
         let case = props::draw_case(prop, engine, *seed, tier);
         let path = format!("{}/{}-{}-died.json", replay_dir, prop, seed);
-        let mut doc = case.to_json();
-        doc["violation"] = json!({"oracle": "process-died", "site": st, "detail": format!("the process executing run index {} died: {}", i, st)});
-        std::fs::write(&path, serde_json::to_string_pretty(&doc).unwrap()).unwrap();
-        new_violations.push((path, format!("process-died: the simulated run with seed {} killed its process ({})", seed, st)));
+        let hung_run = st.starts_with("hung");
+        let small = if hung_run || died_minimised.len() >= 3 || died_minimised.contains(st) {
+            None
+        } else if engine == "shuttle" {
+            isolate::minimise_died_sh(&case, 300)
+        } else {
+            isolate::minimise_died_seq(&case, 200)
+        };
+        match small {
+            Some((small, viol, runs)) => {
+                died_minimised.insert(st.clone());
+                let mut doc = small.to_json();
+                doc["violation"] = violation_json(&viol);
+                doc["shrink_runs"] = json!(runs);
+                std::fs::write(&path, serde_json::to_string_pretty(&doc).unwrap()).unwrap();
+                let n_steps = small.steps.as_ref().map(|s| s.len()).unwrap_or(0);
+                let n_sched = small.extra["sched"]["list"].as_array().map(|a| a.len()).unwrap_or(0);
+                minimised.push(json!({"site": format!("process-died @ {}", viol.site), "count": 1, "replay": path, "steps": n_steps, "schedule_decisions": n_sched, "detail": viol.detail}));
+                new_violations.push((path, format!("process-died: the run with seed {} kills its process: {} (minimised to {} step(s), {} scheduling decision(s))", seed, viol.detail, n_steps, n_sched)));
+            }
+            _ => {
+                let mut doc = case.to_json();
+                doc["violation"] = json!({"oracle": "process-died", "site": st, "detail": format!("the process executing run index {} died: {}", i, st)});
+                std::fs::write(&path, serde_json::to_string_pretty(&doc).unwrap()).unwrap();
+                new_violations.push((path, format!("process-died: the simulated run with seed {} killed its process ({})", seed, st)));
+            }
+        }
     }
     for (key, (c, v)) in by_site.iter().take(8) {
         let case = match Case::from_json(c) {
@@ -598,7 +626,7 @@ fn main() {
         // the replay itself runs in a child process: a run that kills its process (abort,
         // segmentation fault) must be reported as the violation it is, not take the tool down
         Some("replay") if args.len() >= 2 => {
-            let st = std::process::Command::new(std::env::current_exe().unwrap()).args(["replay-inner", &args[1]]).status();
+            let st = std::process::Command::new(std::env::current_exe().unwrap()).args(["replay-inner", &args[1]]).env("JSIM_VERBOSE_PANICS", "1").status();
             match st {
                 Ok(s) if s.code().is_some() => s.code().unwrap(),
                 Ok(s) => {
@@ -619,6 +647,7 @@ fn main() {
             }
         }
         Some("replay-inner") if args.len() >= 2 => cmd_replay(&args[1]),
+        Some("exec-case") => isolate::exec_case_main(),
         Some("oneshot") => cfg::oneshot(),
         Some("make-golden") if args.len() >= 2 => match compat::make_golden(&args[1]) {
             Ok(()) => 0,
